@@ -124,7 +124,7 @@ class CallGraph:
         callee = t["callee"]
         tr = t.get("callee_trait")
         nm = t["callee_name"]
-        if "resolved_closure" in t and t["resolved_closure"] in self.fns:
+        if "resolved_closure" in t and t["resolved_closure"] in self.fns and (tr or "").split("::")[-1] in ("FnOnce", "FnMut", "Fn"):
             c.targets.append(self.fns[t["resolved_closure"]])
             return
         if res is not None and res in self.fns:
@@ -161,9 +161,12 @@ class CallGraph:
             pt = peel(ta)
             adt = pt.get("adt")
             if adt and adt in self.adt_trait_methods:
-                self._add_adt_impls(c, adt, None)
+                # a default method of a std trait only calls back into that trait's impl
+                self._add_adt_impls(c, adt, tr if (tr and (tr.startswith("std::") or tr.startswith("core::"))) else None)
+                if tr == "std::io::BufRead":
+                    self._add_adt_impls(c, adt, "std::io::Read")
             elif pt.get("k") == "param":
-                c.pending.append((pt.get("name"), None))
+                c.pending.append((pt.get("name"), tr if (tr and (tr.startswith("std::") or tr.startswith("core::"))) else None))
 
     def _add_adt_impls(self, c, adt, trait):
         for g in self.adt_trait_methods.get(adt, []):
